@@ -532,4 +532,17 @@ def configs(rule, rng=None, all_=False, k=1):
 _CYCLE = {}
 
 
-SHAPES.update(thirds=thirdsprofile)
+def manycandsprofile(rng):
+    "more than 256 candidates (two-byte candidate ids in the profile's arrays): the contest is among candidates numbered above 256 and one below"
+    nc = rng.randint(258, 264)
+    hi = rng.sample(range(257, nc + 1), 3)
+    lo = rng.randint(1, 256)
+    a, b, c = hi
+    lines = [(rng.randint(140, 160), [a, b]), (rng.randint(70, 85), [lo, b]), (rng.randint(25, 35), [b]), (rng.randint(15, 25), [c, lo])]
+    rng.shuffle(lines)
+    tie = list(range(1, nc + 1))
+    rng.shuffle(tie)
+    return dict(nc=nc, seats=2, lines=lines, tie=tie, withdrawn=[], undeclared=[], eqlines=[])
+
+
+SHAPES.update(thirds=thirdsprofile, manycands=manycandsprofile)
